@@ -193,7 +193,11 @@ _check_fs = Contract(
     families=['FIO17', 'Regex17', 'KFIO17', 'Mod17'], ret=Opt(ANY),
     ensures=['implies(result is not None, result == load_module_from_path(inference_state, KnownContentFileIO('
              'file_io.path, python_bytes_to_unicode(raw_of(file_io), errors="replace"))).as_context())',
-             'implies(result is not None, regex.search(python_bytes_to_unicode(raw_of(file_io), errors="replace")))'],
+             'implies(result is not None, regex.search(python_bytes_to_unicode(raw_of(file_io), errors="replace")))',
+             # (C19) completeness of the pre-filter: an existing file whose DECODED text matches is never skipped
+             'implies(fio_exists(file_io) and regex.search(python_bytes_to_unicode(raw_of(file_io), errors="replace")) '
+             'and not load_module_from_path(inference_state, KnownContentFileIO(file_io.path, '
+             'python_bytes_to_unicode(raw_of(file_io), errors="replace"))).is_compiled(), result is not None)'],
     witness={}, replay=_replay_check_fs, concrete_only=True,
     witness_library=[{'encoding': 'gbk', 'text': '\u4e2d\u6587\u6807\u7b7e'}, {'encoding': 'latin-1', 'text': 'caf\xe9 \xfcber'},
                      {'encoding': 'utf-8', 'text': '\u4e2d\u6587'}],
@@ -206,8 +210,11 @@ CONTRACTS = [_line, _column, _tree_start, _tree_string, _def_start, _def_end, _l
 def register(reg):
     _leaf_axioms(reg)
     reg.add_family(Family('FIO17', attrs={'path': ANY}, methods={
-        'read': FnSpec('FileIO.read', ret=ANY, raises=['FileNotFoundError'], ensures=['result == raw_of(self)'],
-                       assumed=True, note='the bytes of the file')}))
+        'read': FnSpec('FileIO.read', ret=ANY, raises=[('FileNotFoundError', 'not fio_exists(self)')],
+                       ensures=['result == raw_of(self)', 'fio_exists(self)'],
+                       assumed=True, note='the bytes of the file; FileNotFoundError iff it does not exist')}))
+    reg.names['fio_exists'] = FnSpec('fio_exists', params=[('file_io', Obj('FIO17'))], ret=BOOL, pure=True, assumed=True,
+                                     note='ghost: the file exists at the time of the call')
     reg.add_family(Family('Regex17', methods={'search': FnSpec('Pattern.search', params=[('s', STR)], ret=BOOL,
                                                                pure=True, assumed=True)}))
     reg.add_family(Family('KFIO17', attrs={'path': ANY, '_content': STR}))
